@@ -252,7 +252,9 @@ def _make_policy(plan):
         pol = make_scripted_policy(name, plan["scripted_mode"], plan["policy_seed"], key="state",
                                    key_fields=kf)
     else:
-        pol = P.make_policy(kind, name, plan["policy_seed"])
+        # pointer network: documented constructor options -- mask_inner=False (glimpses unmasked; the pointer
+        # distribution is still masked before normalisation) and tanh_clipping=0 (no clipping)
+        pol = P.make_policy(kind, name, plan["policy_seed"], **plan.get("policy_kw", {}))
     if plan.get("train_mode"):
         pol.train()
     else:
@@ -404,6 +406,10 @@ class C11:
                  "top_p": rc.choice([0.0, 0.0, 0.0, 0.0, 0.5, 0.9, 1.0])}
         if kind in ("ptrnet", "mdam"):
             knobs = {"temperature": 1.0, "tanh_clipping": None, "top_k": 0, "top_p": 0.0}
+        policy_kw = {}
+        if kind == "ptrnet":
+            o = rc.choice(["default", "default", "no_inner_mask", "no_inner_mask", "no_tanh"])
+            policy_kw = {"no_inner_mask": {"mask_inner": False}, "no_tanh": {"tanh_clipping": 0}}.get(o, {})
         if mode in ("multistart_greedy", "multistart_sampling", "beam_search"):
             # a forced first move need not survive a top-k / top-p filter when it is replayed as an
             # ordinary step in evaluate mode (the assertion in get_log_likelihood would fire)
@@ -419,6 +425,8 @@ class C11:
         plan.update({"mode": mode, "k": k, "select_best": select_best, "knobs": knobs,
                      "ret_sum": rc.random() < 0.4, "ret_entropy": rc.random() < 0.6,
                      "ret_entropy2": rc.random() < 0.5, "step_mask": step_mask})
+        if policy_kw:
+            plan["policy_kw"] = policy_kw
         return plan
 
     # ----------------------------------------------------------------------------------------------
